@@ -134,7 +134,7 @@ Definition set_branches (st : gstate) m := mkG (g_file st) (g_lines st) m (g_fun
 Definition set_funcs (st : gstate) m := mkG (g_file st) (g_lines st) (g_branches st) m (g_results st).
 Definition apply_grec (r : grec) (st : gstate) : gstate :=
   match r with
-  | GFunction s c nm => set_funcs st (<[nm := mkFunc (dec_val s) (negb (dec_val c =? 0))]> (g_funcs st))
+  | GFunction s c nm => set_funcs st (<[nm := mkFunc (dec_val s) (count_nonzero c)]> (g_funcs st))
   | GLcount l neg c => set_lines st (<[dec_val l := if neg then 0 else dec_val c]> (g_lines st))
   | GBranch l k => set_branches st (<[dec_val l := default [] (g_branches st !! dec_val l) ++ [is_taken k]]> (g_branches st))
   | GOther _ _ => st
@@ -157,8 +157,37 @@ Qed.
 Lemma no_colon_digits d : forallb g_is_digit d = true -> forallb (fun c => negb (c =? gComma)) d = true.
 Proof. apply digits_no. unfold gComma. lia. Qed.
 
+(* the bytes of a signed canonical count: digits or '-' *)
+Lemma canon_dec_digits c : canon_dec c = true -> forallb g_is_digit c = true.
+Proof. unfold canon_dec. intros H. apply andb_true_iff in H as [H _]. apply gdigits_inv in H as [_ H]. exact H. Qed.
+Lemma canon_signed_chars c : canon_signed c = true -> forallb (fun x => g_is_digit x || (x =? 45)) c = true.
+Proof.
+  unfold canon_signed. intros H. apply orb_true_iff in H as [H|H].
+  - apply canon_dec_digits in H. apply forallb_forall. intros x Hx. rewrite forallb_forall in H. rewrite (H x Hx). reflexivity.
+  - destruct c as [|x d]; [discriminate|]. apply andb_true_iff in H as [H _]. apply andb_true_iff in H as [Hx Hd].
+    apply canon_dec_digits in Hd. cbn [forallb]. rewrite Hx, orb_true_r. cbn [andb].
+    apply forallb_forall. intros y Hy. rewrite forallb_forall in Hd. rewrite (Hd y Hy). reflexivity.
+Qed.
+Lemma canon_signed_no sep c : (sep < 45 \/ 57 < sep) -> canon_signed c = true -> forallb (fun x => negb (x =? sep)) c = true.
+Proof.
+  intros Hs H. apply canon_signed_chars in H. apply forallb_forall. intros x Hx. rewrite forallb_forall in H. specialize (H x Hx).
+  unfold g_is_digit in H. lia.
+Qed.
+Lemma canon_signed_zero c : canon_signed c = true -> bool_decide (c = [48]) = negb (count_nonzero c).
+Proof.
+  unfold canon_signed. intros H. apply orb_true_iff in H as [H|H].
+  - rewrite (canon_dec_zero c H). destruct c as [|x d]; [reflexivity|]. cbn [count_nonzero].
+    apply canon_dec_digits in H. cbn [forallb] in H. apply andb_true_iff in H as [Hx _].
+    rewrite (digit_not x 45 Hx) by lia. rewrite negb_involutive. reflexivity.
+  - destruct c as [|x d]; [discriminate|]. apply andb_true_iff in H as [H Hnz]. apply andb_true_iff in H as [Hx Hd].
+    apply N.eqb_eq in Hx. subst x. cbn [count_nonzero]. rewrite N.eqb_refl.
+    rewrite <- (canon_dec_zero d Hd). apply negb_true_iff, bool_decide_eq_false in Hnz.
+    rewrite (bool_decide_eq_false_2 (d = [48]) Hnz). cbn [negb].
+    apply bool_decide_eq_false. intros E. injection E as E _. discriminate.
+Qed.
+
 Lemma gstep_function s c nm st :
-  gdigits s = true -> dec_val s <? two32 = true -> canon_dec c = true ->
+  gdigits s = true -> dec_val s <? two32 = true -> canon_signed c = true ->
   gstep (render_grec (GFunction s c nm)) st = Ok (apply_grec (GFunction s c nm) st).
 Proof.
   intros Hs Hr Hc. unfold render_grec.
@@ -170,9 +199,8 @@ Proof.
   rewrite split_once_app by (apply no_colon_digits; exact Hsd).
   unfold parse_u32. rewrite parse_uint_digits by exact Hs.
   assert (dec_val s <=? U32_MAX = true) as -> by (unfold two32, U32_MAX in *; lia).
-  pose proof Hc as Hc'. unfold canon_dec in Hc'. apply andb_true_iff in Hc' as [Hcd _]. apply gdigits_inv in Hcd as [_ Hcd].
-  rewrite split_once_app by (apply no_colon_digits; exact Hcd).
-  unfold gZero. rewrite (canon_dec_zero c Hc). reflexivity.
+  rewrite split_once_app by (apply canon_signed_no; [unfold gComma; lia|exact Hc]).
+  unfold gZero. rewrite (canon_signed_zero c Hc), negb_involutive. reflexivity.
 Qed.
 
 Lemma gstep_lcount l neg c st :
@@ -277,10 +305,9 @@ Proof.
   unfold text_ok. fold (last_ok (render_grec r)).
   destruct r as [s c nm|l neg c|l k|key text]; cbn [wf_grec render_grec]; intros H.
   - apply andb_true_iff in H as [H Hn]. apply andb_true_iff in H as [H Hc]. apply andb_true_iff in H as [Hs _].
-    apply gdigits_inv in Hs as [_ Hs]. unfold canon_dec in Hc. apply andb_true_iff in Hc as [Hc _].
-    apply gdigits_inv in Hc as [_ Hc]. apply text_ok_inv in Hn as [Hn1 Hn2].
+    apply gdigits_inv in Hs as [_ Hs]. apply (canon_signed_no 10) in Hc; [|lia]. apply text_ok_inv in Hn as [Hn1 Hn2].
     apply andb_true_iff. split.
-    + rewrite !forallb_app, (digits_not_lf s Hs), (digits_not_lf c Hc), Hn1. reflexivity.
+    + change (forallb not_lf c = true) in Hc. rewrite !forallb_app, (digits_not_lf s Hs), Hn1, Hc. reflexivity.
     + rewrite !app_assoc. apply last_ok_app; [exact Hn2|]. intros _. apply last_ok_snoc. reflexivity.
   - apply andb_true_iff in H as [H _]. apply andb_true_iff in H as [H Hc]. apply andb_true_iff in H as [Hl _].
     apply gdigits_inv in Hl as [_ Hl]. apply gdigits_inv in Hc as [Hcne Hc].
